@@ -86,6 +86,10 @@ impl Sys for Sys10 {
             st.sleeping as u64,
             (st.w as u64) << 48 | (st.h as u64) << 32 | (st.ox as u64) << 16 | st.oy as u64,
             st.bgr as u64 | (st.refresh as u64) << 1 | (st.invert as u64) << 3,
+            {
+                let b = rig.bd.borrow();
+                b.levels.iter().enumerate().fold(0u64, |acc, (i, l)| acc | (*l as u64) << i)
+            },
         ];
         let geo = Geo { orient: o, ..cfg.geo() };
         let (lw, lh) = geo.lsize();
